@@ -535,6 +535,13 @@ impl<'a> Gen<'a> {
     }
 
     fn view_of_unchecked(&mut self, var: usize) -> View {
+        if self.cfg.big_pct > 0 && self.rng.chance(1, 5) {
+            // large coefficients over small domains: the value of the view still fits 32 bits, but
+            // intermediate results of the view arithmetic (remainder times scale, ...) need not
+            let scale = *self.rng.pick(&[46341, -46341, 65536, -65537, 100_000, 1_000_003, -30_000_001, 100_000_000, -100_000_000, 400_000_000]);
+            let offset = if self.rng.chance(1, 2) { 0 } else { self.rng.i32(-1000, 1000) };
+            return View { scale, offset, var };
+        }
         if self.rng.below(100) < self.cfg.view_pct {
             let mut scale = self.rng.i32(-3, 3);
             if scale == 0 {
